@@ -42,8 +42,8 @@ M = {
  "killer": {
   "no-hello-rate-limit": (["C12"], "the 1 s suppression against last_hello_tx_ms is dropped", [(A,
     "                if (last_tx > 0 && now_ms - last_tx < HELLO_MIN_INTERVAL_MS) {", "                if (0 && last_tx > 0 && now_ms - last_tx < HELLO_MIN_INTERVAL_MS) {")]),
-  "tick-ignores-empty-table": (["C12"], "the table-empty gate of the tick is dropped", [(A,
-    "            if (table_empty) {\n                lltd_port_log_debug(\"RepeatBand: Table empty, returning to Quiescent\");", "            if (0 && table_empty) {\n                lltd_port_log_debug(\"RepeatBand: Table empty, returning to Quiescent\");")]),
+  "tick-ignores-all-complete": (["C12"], "the all-complete gate of the tick is dropped: Hellos continue although every session is complete (dropping only the table-empty gate is an equivalent mutant: the all-complete branch catches the empty table)", [(A,
+    "            } else if (all_complete) {\n                switch_state_enumeration(enumeration, enum_sess_complete, \"tick\");", "            } else if (0 && all_complete) {\n                switch_state_enumeration(enumeration, enum_sess_complete, \"tick\");")]),
   "expiry-ge-60": (["C16"], "session expiry uses >= 60 s instead of > 60 s", [(A,
     "                if (now_s > entry->last_activity_ts + 60) {", "                if (now_s >= entry->last_activity_ts + 60) {")]),
   "remove-forgets-count": (["C16"], "session_table_remove forgets to decrement count", [(A,
